@@ -261,15 +261,15 @@ func (c *compiler) assembleLine(in sourceLine) (Instruction, error) {
 func (c *compiler) compile() (WarriorData, error) {
 	c.loadSymbols()
 
-	err := c.evaluateAssertions()
-	if err != nil {
-		return WarriorData{}, err
-	}
-
 	graph := buildReferenceGraph(c.values)
 	cyclic, cyclicKey := graphContainsCycle(graph)
 	if cyclic {
 		return WarriorData{}, fmt.Errorf("expression '%s' is cyclic", cyclicKey)
+	}
+
+	err := c.evaluateAssertions()
+	if err != nil {
+		return WarriorData{}, err
 	}
 
 	resolved, err := expandExpressions(c.values, graph)
